@@ -451,13 +451,21 @@ class ScenarioGen:
         from commonroad.planning.planning_problem import PlanningProblem, PlanningProblemSet
         r = self.r
         pps = []
-        for _ in range(n if n is not None else r.randint(1, 3)):
+        # position kinds per goal state: the first problem of case i follows a forced pattern (position-less goal states
+        # BEFORE / BETWEEN lanelet-valued ones shift every index-based bookkeeping), the others are cyclic / random
+        forced = [["none", "lanelets"], ["none", "none", "lanelets"], ["shape", "none", "lanelets"],
+                  ["lanelets", "none", "lanelets"], ["none", "group", "lanelets", "shape"], None, None][self.i % 7]
+        for ppi in range(n if n is not None else r.randint(1, 3)):
             goals, lan = [], {}
-            ng = r.randint(1, 3)
+            pattern = forced if ppi == 0 and forced else None
+            ng = len(pattern) if pattern else r.randint(1, 3)
             for gi in range(ng):
                 ts = r.randint(0, 30)
                 kw = {"time_step": Interval(ts, ts + r.randint(1, 20))}
-                pk = self.cyc(["none", "shape", "group", "lanelets"])
+                pk = pattern[gi] if pattern else (self.cyc(["none", "shape", "group", "lanelets"]) if r.random() < 0.5
+                                                  else r.choice(["none", "shape", "group", "lanelets"]))
+                if pattern and pk == "lanelets" and "none" in pattern[:gi]:
+                    self.feat("goal.lanelets-after-positionless-goal-state")
                 self.feat("goal.position." + pk)
                 if pk == "shape":
                     kw["position"] = self.shape(False, groups=False)
